@@ -14,6 +14,8 @@ package sim
 // undelivered frames, following grpc-go's observable stream contract.
 
 import (
+	"sync/atomic"
+	"runtime"
 	"context"
 	"fmt"
 	"io"
@@ -175,6 +177,8 @@ type link struct {
 	hdrOnce sync.Once
 	hdr     metadata.MD
 	hdrCh   chan struct{}
+	// calls currently inside Send / CloseSend on the client-side and the server-side stream
+	cSending, sSending atomic.Int32
 	// legacy peers: strip the negotiate header in one direction
 	stripReqNegotiate  bool
 	stripRespNegotiate bool
@@ -261,12 +265,33 @@ func (c *cliStream[Req, Res]) Header() (metadata.MD, error) {
 }
 func (c *cliStream[Req, Res]) Trailer() metadata.MD { return nil }
 func (c *cliStream[Req, Res]) CloseSend() error {
+	defer c.l.useSend(&c.l.cSending, "client")()
 	c.l.w.logf("carrier-closesend tunnel=%d", c.l.id)
 	c.l.up.finish(nil)
 	return nil
 }
-func (c *cliStream[Req, Res]) Send(m *Req) error   { return c.l.sendUp(any(m).(proto.Message)) }
-func (c *cliStream[Req, Res]) SendMsg(m any) error { return c.l.sendUp(m.(proto.Message)) }
+func (c *cliStream[Req, Res]) Send(m *Req) error {
+	defer c.l.useSend(&c.l.cSending, "client")()
+	return c.l.sendUp(any(m).(proto.Message))
+}
+func (c *cliStream[Req, Res]) SendMsg(m any) error {
+	defer c.l.useSend(&c.l.cSending, "client")()
+	return c.l.sendUp(m.(proto.Message))
+}
+
+// useSend: a gRPC stream allows one goroutine at a time in SendMsg / CloseSend (SendMsg on the
+// server side). The library serialises them with its thread-safe wrappers; the carrier notices
+// when two calls overlap (code 1502). In free-running mode the call yields once inside the
+// section so that an overlap that is possible also happens.
+func (l *link) useSend(ctr *atomic.Int32, side string) func() {
+	if n := ctr.Add(1); n > 1 {
+		l.w.logf("harnessfail code=1502 a=%d b=%d", l.id, n)
+	}
+	if l.w.free {
+		runtime.Gosched()
+	}
+	return func() { ctr.Add(-1) }
+}
 func (c *cliStream[Req, Res]) Recv() (*Res, error) {
 	v, err := c.l.down.recv()
 	if err != nil {
@@ -309,8 +334,14 @@ func (s *srvStream[Req, Res]) SendHeader(md metadata.MD) error {
 }
 func (s *srvStream[Req, Res]) SetHeader(md metadata.MD) error { return nil }
 func (s *srvStream[Req, Res]) SetTrailer(md metadata.MD)      {}
-func (s *srvStream[Req, Res]) Send(m *Res) error              { return s.l.sendDown(any(m).(proto.Message)) }
-func (s *srvStream[Req, Res]) SendMsg(m any) error            { return s.l.sendDown(m.(proto.Message)) }
+func (s *srvStream[Req, Res]) Send(m *Res) error {
+	defer s.l.useSend(&s.l.sSending, "server")()
+	return s.l.sendDown(any(m).(proto.Message))
+}
+func (s *srvStream[Req, Res]) SendMsg(m any) error {
+	defer s.l.useSend(&s.l.sSending, "server")()
+	return s.l.sendDown(m.(proto.Message))
+}
 func (s *srvStream[Req, Res]) Recv() (*Req, error) {
 	v, err := s.l.up.recv()
 	if err != nil {
